@@ -61,7 +61,7 @@ type prodRun struct {
 	msgs       map[int]*sarama.ProducerMessage
 	// async collection
 	cmu    sync.Mutex
-	succ   []int         // message ids received on Successes()
+	succ   []int           // message ids received on Successes()
 	errs   map[int][]error // message id -> errors received on Errors()
 	cdone  sync.WaitGroup
 	closed bool
@@ -250,7 +250,11 @@ func runProducerLine(toks []string) (string, string) {
 		if !timedOut {
 			timedOut = true
 			timeouts++
-			ioFail(hdr[0]+"-mock-does-not-return:"+what, strings.Join(toks, " "), "no progress within "+waitStep.String())
+			detail := "no progress within " + waitStep.String()
+			if what == "input-not-handled" {
+				detail = "an input was accepted but within " + waitStep.String() + " neither the partitioner was consulted for it nor the missing expectation reported"
+			}
+			ioFail(hdr[0]+"-mock-does-not-return:"+what, strings.Join(toks, " "), detail)
 		}
 	}
 	sres := map[int]syncRes{}
